@@ -5,6 +5,7 @@ import (
 	"unicode/utf8"
 
 	"go.opentelemetry.io/otel/log"
+	"go.opentelemetry.io/otel/sdk/resource"
 )
 
 // reference truncation (DESIGN A.2)
@@ -333,4 +334,42 @@ func HarnessC17LimitZero() {
 	}
 	vndReach("limit-zero")
 	vndAssert(r.AttributesLen() == 0, "count-limit-zero-records-nothing")
+}
+
+// C17.provider: the limits as configured through the provider options reach
+// the records a logger emits (including a value-length limit of exactly 0)
+type c17Capture struct{ got []Record }
+
+func (c *c17Capture) OnEmit(_ context.Context, r *Record) error {
+	c.got = append(c.got, r.Clone())
+	return nil
+}
+func (c *c17Capture) Shutdown(context.Context) error   { return nil }
+func (c *c17Capture) ForceFlush(context.Context) error { return nil }
+
+func HarnessC17Provider() {
+	vndUnsetEnv(envarAttrCntLim)
+	vndUnsetEnv(envarAttrValLenLim)
+	countLimit := []int{-1, 1, 2}[vndChoice(3)]
+	lenLimit := vndChoice(4) - 1 // -1 (unlimited), 0, 1, 2
+	cap := &c17Capture{}
+	p := NewLoggerProvider(WithResource(resource.Empty()), WithProcessor(cap),
+		WithAttributeCountLimit(countLimit), WithAttributeValueLengthLimit(lenLimit))
+	var ar log.Record
+	m := &c17Model{}
+	keys := []string{"a", "b"}
+	n := 1 + vndChoice(2)
+	for i := 0; i < n; i++ {
+		k := keys[vndChoice(2)]
+		v, o := c17Value(2)
+		ar.AddAttributes(log.KeyValue{Key: k, Value: v})
+		m.add(countLimit, log.KeyValue{Key: k, Value: o})
+	}
+	p.Logger("l").Emit(context.Background(), ar)
+	vndAssert(len(cap.got) == 1, "record-reaches-the-processor")
+	if len(cap.got) != 1 {
+		return
+	}
+	vndReach("emitted")
+	c17Compare(&cap.got[0], m, countLimit, lenLimit)
 }
